@@ -528,6 +528,31 @@ pub async fn ret_cancel(seed: u64, die: bool) {
             None => tr(json!({"ev": "api_cancel", "op": id, "polls": polls})),
         }
     }
+    // a first close() is abandoned while the event queue is still full (nothing was queued): it must not count as done
+    {
+        let id = next_op;
+        next_op += 1;
+        tr(json!({"ev": "api_start", "op": id, "ep": 2, "kind": "close", "port": p32(b_port)}));
+        let rxc = b_rx.clone();
+        let mut op = Op::new(id, 2, async move {
+            let mut g = rxc.lock_owned().await;
+            g.close().await;
+        });
+        let polls = rng.range(1, 3);
+        let mut done = false;
+        for _ in 0..polls {
+            if let Polled::Ready(()) = op.poll() {
+                done = true;
+                break;
+            }
+            settle().await;
+        }
+        if done {
+            tr(json!({"ev": "api_done", "op": id, "res": "ok"}));
+        } else {
+            tr(json!({"ev": "api_cancel", "op": id, "polls": polls}));
+        }
+    }
     // now B closes its receiver (needs the event queue) while the transport resumes
     let id = next_op;
     tr(json!({"ev": "api_start", "op": id, "ep": 2, "kind": "close", "port": p32(b_port)}));
@@ -641,4 +666,138 @@ pub async fn stream_hostile(seed: u64) {
     drop(b_tx);
     drop(b_rx);
     settle().await;
+}
+
+
+/// Wake-up after a cancelled send (C03): the window is full; a send waits for credit and is abandoned, a second one
+/// waits; the receiver then consumes everything in one call, i.e. a single credit return arrives.  The second send
+/// must go through.
+pub async fn wake_scenario(seed: u64) {
+    let mut rng = Rng::new(seed ^ 0x77A3);
+    let mut cfg_a = EpCfg::small(&mut rng);
+    let mut cfg_b = EpCfg::small(&mut rng);
+    cfg_b.rbuf = rng.range(4, 8) as u32;
+    cfg_b.chunk = 16;
+    cfg_b.max_data = 64;
+    cfg_a.max_data = 64;
+    tr(json!({"ev": "reset", "seed": seed, "wl": "wake", "cfg": [cfg_a.json(), cfg_b.json()]}));
+    install_spawn_policy(seed, 1, 4);
+    let mut conn = Conn::establish(&cfg_a, &cfg_b).await;
+    let client = conn.client[0].clone().unwrap();
+    let mut listener = conn.listener[1].take().unwrap();
+    let (pab, pba) = (conn.ab.clone(), conn.ba.clone());
+    let pump = tokio::spawn(async move {
+        loop {
+            pab.deliver();
+            pba.deliver();
+            tokio::task::yield_now().await;
+        }
+    });
+    let (c, s) = tokio::join!(Labeled::new(1, client.connect()), Labeled::new(2, listener.accept()));
+    pump.abort();
+    let (a_tx, a_rx) = c.expect("connect");
+    let (b_tx, mut b_rx) = s.expect("accept").expect("some");
+    conn.flush().await;
+    tr(json!({"ev": "open", "ep": 1, "local": p32(a_tx.local_port()), "remote": p32(a_tx.remote_port())}));
+    tr(json!({"ev": "open", "ep": 2, "local": p32(b_tx.local_port()), "remote": p32(b_tx.remote_port())}));
+    let (a_port, b_port) = (a_tx.local_port(), b_tx.local_port());
+    let a_tx = std::sync::Arc::new(tokio::sync::Mutex::new(a_tx));
+    let mut next_op = 1u64;
+    // 1: one message that uses the whole window
+    let fill = cfg_b.rbuf as usize;
+    let mut send = |len: usize, next_op: &mut u64| {
+        let id = *next_op;
+        *next_op += 1;
+        let data = vec![(id * 11) as u8; len];
+        tr(json!({"ev": "api_start", "op": id, "ep": 1, "kind": "send", "port": p32(a_port), "data": bytes_json(&data)}));
+        let txc = a_tx.clone();
+        Op::new(id, 1, async move {
+            let mut g = txc.lock_owned().await;
+            g.send(Bytes::from(data)).await.is_ok()
+        })
+    };
+    let mut op1 = send(fill, &mut next_op);
+    for _ in 0..60 {
+        if let Polled::Ready(ok) = op1.poll() {
+            tr(json!({"ev": "api_done", "op": op1.id, "res": if ok { "ok" } else { "err" }, "err": "chmux"}));
+            break;
+        }
+        conn.flush().await;
+    }
+    drop(op1);
+    conn.flush().await;
+    // 2: waits for credit, abandoned after a few polls (possibly several such sends)
+    for _ in 0..rng.range(1, 2) {
+        let mut op2 = send(1, &mut next_op);
+        let polls = rng.range(2, 6);
+        for _ in 0..polls {
+            let _ = op2.poll();
+            conn.flush().await;
+        }
+        tr(json!({"ev": "api_cancel", "op": op2.id, "polls": polls}));
+        drop(op2);
+        conn.flush().await;
+    }
+    // 3: waits for credit as well
+    let mut op3 = Some(send(1, &mut next_op));
+    for _ in 0..4 {
+        if let Some(o) = op3.as_mut() {
+            if let Polled::Ready(ok) = o.poll() {
+                tr(json!({"ev": "api_done", "op": o.id, "res": if ok { "ok" } else { "err" }, "err": "chmux"}));
+                op3 = None;
+            }
+        }
+        conn.flush().await;
+    }
+    // B consumes the whole message in one call: a single credit return
+    let id = next_op;
+    tr(json!({"ev": "api_start", "op": id, "ep": 2, "kind": "recv_any", "port": p32(b_port)}));
+    let mut rop = Op::new(id, 2, async move {
+        let r = b_rx.recv_any().await;
+        (r, b_rx)
+    });
+    let mut b_rx_back = None;
+    for _ in 0..60 {
+        if let Polled::Ready((r, rx)) = rop.poll() {
+            match r {
+                Ok(Some(remoc::chmux::Received::Data(d))) => tr(json!({"ev": "api_done", "op": id, "res": "data", "data": bytes_json(&Vec::<u8>::from(d))})),
+                _ => tr(json!({"ev": "api_done", "op": id, "res": "err", "err": "other"})),
+            }
+            b_rx_back = Some(rx);
+            break;
+        }
+        conn.flush().await;
+    }
+    drop(rop);
+    for _ in 0..200 {
+        if let Some(o) = op3.as_mut() {
+            if o.runnable() {
+                if let Polled::Ready(ok) = o.poll() {
+                    tr(json!({"ev": "api_done", "op": o.id, "res": if ok { "ok" } else { "err" }, "err": "chmux"}));
+                    op3 = None;
+                }
+            }
+        }
+        conn.flush().await;
+        if op3.is_none() {
+            break;
+        }
+    }
+    let pending: Vec<u64> = op3.iter().map(|o| o.id).collect();
+    tr(json!({"ev": "quiescent", "pending": pending, "settled": false}));
+    if let Some(o) = op3 {
+        tr(json!({"ev": "api_cancel", "op": o.id, "polls": o.polls}));
+    }
+    tr(json!({"ev": "drop", "ep": 1, "what": "sender", "port": p32(a_port)}));
+    drop(a_tx);
+    tr(json!({"ev": "drop", "ep": 1, "what": "receiver", "port": p32(a_port)}));
+    drop(a_rx);
+    tr(json!({"ev": "drop", "ep": 2, "what": "sender", "port": p32(b_port)}));
+    drop(b_tx);
+    tr(json!({"ev": "drop", "ep": 2, "what": "receiver", "port": p32(b_port)}));
+    drop(b_rx_back);
+    drop(client);
+    drop(listener);
+    tr(json!({"ev": "all_dropped"}));
+    conn.teardown().await;
 }
